@@ -6,6 +6,7 @@ import (
 
 	"github.com/goatcms/goatcore/app"
 	"github.com/goatcms/goatcore/app/modules/commonm/commservices"
+	"github.com/goatcms/goatcore/verifhook"
 )
 
 // SharedMutex lock reseources
@@ -46,6 +47,7 @@ func (sharedMutex *SharedMutex) Lock(resources commservices.LockMap) (handler co
 		return list[i].Name < list[j].Name
 	})
 	for _, row := range list {
+		verifhook.Yield("mutex.acquire")
 		mu := sharedMutex.get(row.Name)
 		if row.Value == commservices.LockR {
 			mu.RLock()
